@@ -3,7 +3,10 @@ import random
 import docs
 from docs import UA
 
-TEXTS = ["Motor", "Tank 1", "a<b", "x&y", "q\"uote", "it's", "é", "😀", " lead", "trail ", "a:b", "a;b=c", "ns=1", "", "multi\nline", "tab\there", "<![CDATA[", "]]>", "lim[i[0]]>max", "a > b", "&amp;"]
+TEXTS = ["Motor", "Tank 1", "a<b", "x&y", "q\"uote", "it's", "é", "😀", " lead", "trail ", "a:b", "a;b=c", "ns=1", "", "multi\nline", "tab\there", "<![CDATA[", "]]>", "lim[i[0]]>max", "a > b", "&amp;", "47 k\u2126", "e\u0301te\u0301", "\u212bngstr\u00f6m"]
+# characters that Unicode normalisation would rewrite (OHM SIGN, KELVIN SIGN, ANGSTROM SIGN, a letter followed by a combining accent) and the composed
+# letter one of them would become: harmless in XML, so they also go into the names and identifiers of graphs without hostile text
+NONNFC = ["\u2126", "\u212a", "\u212b", "e\u0301", "\u00c5"]
 # texts every hostile graph carries somewhere (markup that an escaping shortcut would let through)
 MUST = ["idx[a[0]]>b", "a<b&c>d", "q\"uote's", "<![CDATA[x]]>"]
 NAMES = ["Motor", "Tank", "Level", "a<b", "x&y", "é", "n s", "semi;colon", "eq=ual", "q\"uote", "Var:colon"]
@@ -56,14 +59,14 @@ def gen_graph(rng, n_ns=2, n_nodes=6, hostile=True, with_values=True, dangling=T
     keys = []
     for i in range(n_nodes):
         uri = rng.choice(g.uris); t = rng.choice("iiissgb")
-        k = (uri, t, rident(rng, t, i) if hostile else (str(1000 + i) if t == "i" else "S%d" % i))
+        k = (uri, t, rident(rng, t, i) if hostile else (str(1000 + i) if t == "i" else "S%d" % i + (rng.choice(NONNFC) if t == "s" and rng.random() < 0.25 else "")))
         if keys and rng.random() < 0.12:
             # a twin: the identifier text of an earlier node of the same namespace under another identifier type (i=5001 and s=5001, s=X and g=X are different nodes)
             pu, pt, pid = rng.choice(keys)
             k = (pu, rng.choice([x for x in ("s", "g", "b") + (("i",) if pid.isdigit() and not pid.startswith("0") else ()) if x != pt]), pid); uri = pu
         if k in g.nodes: continue
         cls = rng.choice(docs.CLASSES)
-        name = rng.choice(NAMES) if hostile else "N%d" % i
+        name = rng.choice(NAMES) if hostile else "N%d" % i + (rng.choice(NONNFC) if rng.random() < 0.25 else "")
         bn_uri = rng.choice([uri, uri, UA] + g.uris)
         attrs = {}
         for a in ATTRS_BY_CLASS[cls]:
@@ -121,6 +124,8 @@ def nid_text(key, local, alias_of=None, rng=None):
     uri, t, ident = key
     if alias_of and key in alias_of and (rng is None or rng.random() < 0.8): return alias_of[key]
     idx = local.index(uri)
+    # a document may list the OPC UA namespace in its own NamespaceUris table: its identifiers can then be written with that local index as well
+    if idx == 0 and rng is not None and uri in local[1:] and rng.random() < 0.6: idx = 1 + local[1:].index(uri)
     return "%s=%s" % (t, ident) if idx == 0 else "ns=%d;%s=%s" % (idx, t, ident)
 
 def serialise(g, rng, base_name="Opc.Ua.NodeSet2.xml", placement=None, file_names=None, with_base=True, perm=True, aliases=True, value_xml=None, split=False):
@@ -170,6 +175,8 @@ def serialise(g, rng, base_name="Opc.Ua.NodeSet2.xml", placement=None, file_name
             local_rest = local_rest + [u for u in g.uris if u not in local_rest]
             if perm: rng.shuffle(local_rest)
         local = [UA] + local_rest
+        bt_ = getattr(g, "base_in_table", None)
+        if U != UA and (rng.random() < 0.1 if bt_ is None else bt_): local.insert(rng.randint(1, len(local)), UA)
         alias_of = {}
         alias_list = []
         if aliases:
